@@ -362,8 +362,8 @@ def merge(c, a, b):
         return VBool(z3.If(c, a.term, b.term))
     if isinstance(a, (VReal, VInt)) and isinstance(b, (VReal, VInt)):
         return VReal(z3.If(c, to_real(a), to_real(b)))
-    if isinstance(a, VBytes) and isinstance(b, VBytes) and a.ba == b.ba:
-        return VBytes(z3.If(c, a.term, b.term), a.ba)
+    if isinstance(a, VBytes) and isinstance(b, VBytes):
+        return VBytes(z3.If(c, a.term, b.term), a.ba and b.ba)
     if isinstance(a, VStr) and isinstance(b, VStr):
         return VStr(z3.If(c, a.term, b.term))
     if isinstance(a, VTuple) and isinstance(b, VTuple) and len(a.items) == len(b.items):
